@@ -90,6 +90,7 @@ S = {
  "C14F": "only the innermost new level of a dotted key inherits the metadata: errors against outer created levels lose the source",
  "C18E": "cfgFloat.toString formats whole numbers through int64: [2^63, 2^64) and -2^63 read differently through JSON and YAML",
  "C19E": "Collector.Add skips configs without named top-level fields: list-shaped settings (-D 0=x) are dropped",
+ "C06E": "normalizeArray fast path for integer kinds stores []time.Duration / [N]time.Duration elements as nanosecond counts (read back as seconds)",
 }
 
 rows = []
